@@ -36,6 +36,9 @@ func loFindFile(L *LState, name, pname string) (string, string) {
 	}
 	messages := []string{}
 	for _, pattern := range strings.Split(string(path), ";") {
+		if pattern == "" {
+			continue // pushnexttemplate in loadlib.c skips empty templates
+		}
 		luapath := strings.Replace(pattern, "?", name, -1)
 		if _, err := os.Stat(luapath); err == nil {
 			return luapath, ""
